@@ -33,6 +33,8 @@ import SpecKitV.Drv.ExtSchedGlue
 import SpecKitV.Drv.ExtConfigGlue
 import SpecKitV.Drv.ExtBuildQ
 import SpecKitV.Drv.ExtEntryPoints
+import SpecKitV.Drv.ExtCtorShape
+import SpecKitV.Drv.ExtDfWrappers
 
 namespace Drv
 
@@ -458,7 +460,7 @@ def dispatch : M String := do
   | "genutil" => opGenUtil
   | "ping" => pure "pong"
   | _ =>
-    match (ExtNumpyKernels.dispatch op <|> ExtRms.dispatch op <|> ExtTimeShift.dispatch op <|> ExtMiso.dispatch op <|> ExtNoiseGens.dispatch op <|> ExtFftNoise.dispatch op <|> ExtLpsdCore.dispatch op <|> ExtResultQueries.dispatch op <|> ExtSchedGlue.dispatch op <|> ExtConfigGlue.dispatch op <|> ExtBuildQ.dispatch op <|> ExtEntryPoints.dispatch op) with
+    match (ExtNumpyKernels.dispatch op <|> ExtRms.dispatch op <|> ExtTimeShift.dispatch op <|> ExtMiso.dispatch op <|> ExtNoiseGens.dispatch op <|> ExtFftNoise.dispatch op <|> ExtLpsdCore.dispatch op <|> ExtResultQueries.dispatch op <|> ExtSchedGlue.dispatch op <|> ExtConfigGlue.dispatch op <|> ExtBuildQ.dispatch op <|> ExtEntryPoints.dispatch op <|> ExtCtorShape.dispatch op <|> ExtDfWrappers.dispatch op) with
     | some h => h
     | none => throw s!"op:{op}"
 
